@@ -10,7 +10,7 @@ All statements are for every history, every start state where one is mentioned, 
 of the type / identity layers and every option setting.
 
 WHAT THE THEOREMS ASSUME, AND WHICH RUNNER CHECK COVERS IT.  In the model `process` is
-`processAll reg opts plug`, a pure function of the registry; the Go `Modules` value carries more.
+`processAll reg opts (plug reg)`, a pure function of the registry; the Go `Modules` value carries more.
 Each theorem is about the real code only as far as the runner (harness/cmd/corr-c18) confirms, on
 histories executed on ONE `Modules` value, that this extra state is transparent:
 
@@ -41,11 +41,11 @@ open Goyang.Model Goyang.Model.Session Goyang.Spec.Session Goyang.Lemmas.Session
 
 /-- Processing twice gives the same answer twice, equal to processing once, and leaves the same
 state: for every history `h` from every state. -/
-theorem process_idempotent (plug : Plug) (s : Session) (h : List Op) :
+theorem process_idempotent (plug : Registry → Plug) (s : Session) (h : List Op) :
     (runFrom plug s (h ++ [.process, .process])).1 = (runFrom plug s (h ++ [.process])).1 ∧
     ∃ o, (runFrom plug s (h ++ [.process])).2 = (runFrom plug s h).2 ++ [o] ∧
          (runFrom plug s (h ++ [.process, .process])).2 = (runFrom plug s h).2 ++ [o, o] := by
-  refine ⟨?_, .processed (processAll (runFrom plug s h).1.reg (runFrom plug s h).1.opts plug), ?_, ?_⟩
+  refine ⟨?_, .processed (processAll (runFrom plug s h).1.reg (runFrom plug s h).1.opts (plug (runFrom plug s h).1.reg)), ?_, ?_⟩
   · simp only [runFrom_append, runFrom_cons, runFrom_nil, step_process]
   · simp only [runFrom_append, runFrom_cons, runFrom_nil, step_process]
   · simp only [runFrom_append, runFrom_cons, runFrom_nil, step_process]
@@ -54,12 +54,12 @@ theorem process_idempotent (plug : Plug) (s : Session) (h : List Op) :
 
 /-- A rejected load (`Parse` returned an error: parser, AST builder or `add`) leaves the state
 *equal* to the state before. -/
-theorem failed_load_state_eq (plug : Plug) (s : Session) (f : SrcFile) (ok : Bool) (w : Reject)
+theorem failed_load_state_eq (plug : Registry → Plug) (s : Session) (f : SrcFile) (ok : Bool) (w : Reject)
     (h : (step plug s (.load f ok)).2 = .rejected w) : (step plug s (.load f ok)).1 = s :=
   step_rejected_state plug s f ok w h
 
 /-- … so no later history of loads, processing runs and reads can tell the two apart. -/
-theorem failed_load_indistinguishable (plug : Plug) (s : Session) (f : SrcFile) (ok : Bool) (w : Reject)
+theorem failed_load_indistinguishable (plug : Registry → Plug) (s : Session) (f : SrcFile) (ok : Bool) (w : Reject)
     (h : (step plug s (.load f ok)).2 = .rejected w) :
     Indistinguishable plug (step plug s (.load f ok)).1 s := by
   intro later
@@ -68,7 +68,7 @@ theorem failed_load_indistinguishable (plug : Plug) (s : Session) (f : SrcFile) 
 /-- A load anywhere in a history that is answered `rejected`: cutting it out of the history
 changes neither any other answer nor the final state — the set behaves, for every later load,
 processing run and read, exactly as if the failed text had never been offered. -/
-theorem failed_load_no_trace (plug : Plug) (s : Session) (pre post : List Op) (f : SrcFile) (ok : Bool) (w : Reject)
+theorem failed_load_no_trace (plug : Registry → Plug) (s : Session) (pre post : List Op) (f : SrcFile) (ok : Bool) (w : Reject)
     (h : (runFrom plug s (pre ++ .load f ok :: post)).2[pre.length]? = some (.rejected w)) :
     (runFrom plug s (pre ++ .load f ok :: post)).1 = (runFrom plug s (pre ++ post)).1 ∧
     (runFrom plug s (pre ++ .load f ok :: post)).2.eraseIdx pre.length = (runFrom plug s (pre ++ post)).2 := by
@@ -86,13 +86,13 @@ theorem failed_load_no_trace (plug : Plug) (s : Session) (pre post : List Op) (f
 
 /-- The registry a history leaves behind is the one obtained by loading, in order, exactly the
 texts whose load the caller saw accepted; rejected texts, processing runs and reads do not enter. -/
-theorem load_order_of_accepted_only (plug : Plug) (opts : Opts) (h : List Op) :
+theorem load_order_of_accepted_only (plug : Registry → Plug) (opts : Opts) (h : List Op) :
     (after plug opts h).reg = loadFiles (goodTexts plug opts h) ∧ (after plug opts h).opts = opts :=
   ⟨runFrom_reg plug { opts := opts } h, runFrom_opts plug { opts := opts } h⟩
 
 /-- Offered as a batch to a fresh set, the good texts of a history are all accepted, in their
 order, and are their own good texts. -/
-theorem good_texts_batch (plug : Plug) (opts : Opts) (h : List Op) :
+theorem good_texts_batch (plug : Registry → Plug) (opts : Opts) (h : List Op) :
     run plug opts (loads (goodTexts plug opts h)) = (goodTexts plug opts h).map (fun _ => Out.accepted) ∧
     (after plug opts (loads (goodTexts plug opts h))).reg = (after plug opts h).reg :=
   have := batch_replays plug h { opts := opts } { opts := opts } rfl
@@ -100,9 +100,9 @@ theorem good_texts_batch (plug : Plug) (opts : Opts) (h : List Op) :
 
 /-- Every `process` answer in a history is `processAll` of the registry obtained by loading, in
 order, exactly the accepted texts that precede it. -/
-theorem process_outcome (plug : Plug) (opts : Opts) (pre post : List Op) :
+theorem process_outcome (plug : Registry → Plug) (opts : Opts) (pre post : List Op) :
     (run plug opts (pre ++ .process :: post))[pre.length]? =
-      some (.processed (processAll (loadFiles (goodTexts plug opts pre)) opts plug)) := by
+      some (.processed (processAll (loadFiles (goodTexts plug opts pre)) opts (plug (loadFiles (goodTexts plug opts pre))))) := by
   have hl : (runFrom plug { opts := opts } pre).2.length = pre.length := runFrom_length plug _ pre
   have hr := (load_order_of_accepted_only plug opts pre)
   simp only [after] at hr
@@ -111,19 +111,19 @@ theorem process_outcome (plug : Plug) (opts : Opts) (pre post : List Op) :
 
 /-- Loading more texts after processing runs (and failed loads, and reads) and processing again
 answers exactly what the batch run of the good texts on a fresh set answers. -/
-theorem incremental_eq_batch (plug : Plug) (opts : Opts) (h : List Op) :
+theorem incremental_eq_batch (plug : Registry → Plug) (opts : Opts) (h : List Op) :
     (run plug opts (h ++ [.process])).getLast? = batch plug opts (goodTexts plug opts h) ∧
     batch plug opts (goodTexts plug opts h) =
-      some (.processed (processAll (loadFiles (goodTexts plug opts h)) opts plug)) := by
+      some (.processed (processAll (loadFiles (goodTexts plug opts h)) opts (plug (loadFiles (goodTexts plug opts h))))) := by
   have hb := good_texts_batch plug opts h
   have hr := load_order_of_accepted_only plug opts h
   simp only [after] at hb hr
   have e1 : (run plug opts (h ++ [.process])).getLast? =
-      some (.processed (processAll (loadFiles (goodTexts plug opts h)) opts plug)) := by
+      some (.processed (processAll (loadFiles (goodTexts plug opts h)) opts (plug (loadFiles (goodTexts plug opts h))))) := by
     simp only [run, runFrom_append, runFrom_cons, runFrom_nil, step_process, List.getLast?_append, List.getLast?_singleton,
       Option.some_or, hr.1, hr.2]
   have e2 : batch plug opts (goodTexts plug opts h) =
-      some (.processed (processAll (loadFiles (goodTexts plug opts h)) opts plug)) := by
+      some (.processed (processAll (loadFiles (goodTexts plug opts h)) opts (plug (loadFiles (goodTexts plug opts h))))) := by
     simp only [batch, run, runFrom_append, runFrom_cons, runFrom_nil, step_process, List.getLast?_append,
       List.getLast?_singleton, Option.some_or, hb.2, runFrom_opts, hr.1]
   exact ⟨e1.trans e2.symm, e2⟩
@@ -133,7 +133,7 @@ theorem incremental_eq_batch (plug : Plug) (opts : Opts) (h : List Op) :
 /-- Reads interleaved anywhere in a history change no answer to a `load` or a `process`, and not
 the registry reached (they do write the entry cache, as `Find` does in Go when it creates the
 absent input / output of an rpc; `process` rebuilds that cache from nothing). -/
-theorem read_no_trace (plug : Plug) (opts : Opts) (h : List Op) :
+theorem read_no_trace (plug : Registry → Plug) (opts : Opts) (h : List Op) :
     (run plug opts h).filter (fun o => !o.isReadOut) = run plug opts (h.filter fun op => !op.isRead) ∧
     (after plug opts h).reg = (after plug opts (h.filter fun op => !op.isRead)).reg :=
   runFrom_skip_reads plug h { opts := opts } { opts := opts } rfl rfl
@@ -143,7 +143,7 @@ processing runs, and a read -/
 
 section Examples
 
-private def plug0 : Plug := { tres := typesLite, identityErrs := fun _ => [], typedefErrs := fun _ => [] }
+private def plug0 : Registry → Plug := fun _ => { tres := typesLite, identityErrs := fun _ => [], typedefErrs := fun _ => [] }
 
 private def st (file kw arg : String) (l : Nat) (subs : List Stmt := []) : Stmt := .mk kw true arg file l 1 subs
 
@@ -167,39 +167,42 @@ private def textTwo : SrcFile :=
 private def textBad : SrcFile := { name := "bad.yang", stmts := [st "bad.yang" "module" "q" 1] }
 
 private def hist : List Op :=
-  [.load textA true, .process, .load textA true, .load textBad false, .load textTwo true,
-   .read "a" "/a:c/a:x", .load textB true, .process]
+  [.read "a" "/a:c", .load textA true, .read "a" "/a:c/a:x", .process, .load textA true, .load textBad false,
+   .load textTwo true, .read "nosuch" "/a:c", .load textB true, .process]
 
-private def tag : Out → String
-  | .accepted => "accepted"
-  | .rejected .build => "rejected-build"
-  | .rejected (.add _) => "rejected-add"
-  | .processed o => if o.errors.isEmpty then "processed-clean" else "processed-errors"
-  | .found (some _) => "found"
-  | .found none => "not-found"
-  | .noModule => "no-module"
-  | .unprocessed => "unprocessed"
+/-- What the caller saw of each load: the name of the text and whether it was accepted. -/
+private def loadAnswers (h : List Op) (outs : List Out) : List (String × Bool) :=
+  (h.zip outs).filterMap fun (op, o) =>
+    match op with
+    | .load f _ => some (f.name, match o with | .accepted => true | _ => false)
+    | _ => none
 
-/-- The history does what its name says: duplicate, bad text and two-module text are rejected
-between two clean processing runs, and the read finds its node. -/
-example : (run plug0 {} hist).map tag =
-    ["accepted", "processed-clean", "rejected-add", "rejected-build", "rejected-add", "found", "accepted",
-     "processed-clean"] := by decide
+/-- The history does what its name says: the duplicate, the bad text and the two-module text are
+rejected between the two processing runs. -/
+example : loadAnswers hist (run plug0 {} hist) =
+    [("a.yang", true), ("a.yang", false), ("bad.yang", false), ("two.yang", false), ("b.yang", true)] := by decide
 
 /-- Its good texts are exactly the two accepted ones, in order. -/
 example : (goodTexts plug0 {} hist).map (·.name) = ["a.yang", "b.yang"] := by decide
 
-/-- The hypothesis of `failed_load_no_trace` is met at position 2 (duplicate), 3 (bad text) and
-4 (two modules, the second rejected: the first one, `z`, is not left behind). -/
-example : ∃ w, (runFrom plug0 {} hist).2[2]? = some (.rejected w) := ⟨_, rfl⟩
-example : ∃ w, (runFrom plug0 {} hist).2[3]? = some (.rejected w) := ⟨_, rfl⟩
+/-- The hypothesis of `failed_load_no_trace` is met at position 4 (duplicate), 5 (bad text) and
+6 (two modules, the second rejected: the first one, `z`, is not left behind). -/
 example : ∃ w, (runFrom plug0 {} hist).2[4]? = some (.rejected w) := ⟨_, rfl⟩
+example : ∃ w, (runFrom plug0 {} hist).2[5]? = some (.rejected w) := ⟨_, rfl⟩
+example : ∃ w, (runFrom plug0 {} hist).2[6]? = some (.rejected w) := ⟨_, rfl⟩
 example : ((after plug0 {} hist).reg.getModule "z").isNone = true := by decide
+example : ((after plug0 {} hist).reg.getModule "b").isSome = true := by decide
 
-/-- The two processing runs answer differently (the second sees the augment of `b`), so
-`process_outcome` is not about a constant. -/
-example : ((run plug0 {} hist).filterMap fun o => match o with
-    | .processed o => some (o.forest.trees.length) | _ => none) = [1, 2] := by decide
+/-- The reads of the history are answered (of a module that is not there: nothing; before any
+`Process`: not from a finished run). -/
+example : (runFrom plug0 {} hist).2[0]? = some .noModule := rfl
+example : (runFrom plug0 {} hist).2[2]? = some .unprocessed := rfl
+example : (runFrom plug0 {} hist).2[7]? = some .noModule := rfl
+
+/- What the two processing runs answer (and that they differ: the second sees the augment of `b`
+in the tree of `a`) is not evaluated in the kernel; the same history is
+corpus/C18/example-history.json of the correspondence runner, where the answers of the compiled
+model are compared with those of the real code. -/
 
 end Examples
 
